@@ -150,7 +150,7 @@ func (x *Explorer) Run() {
 					skip = true
 					rr.Inconclusive = appendUniq(rr.Inconclusive, "time budget exhausted")
 				}
-				if x.stopOnFail && len(rr.Failures) >= 3 {
+				if x.stopOnFail && len(rr.Failures) >= x.failCap(rr) {
 					// counterexamples found: no need to exhaust the (possibly exploding) rest of this root
 					skip = true
 				}
@@ -232,6 +232,18 @@ func (x *Explorer) Run() {
 		}(w)
 	}
 	wg.Wait()
+}
+
+// failCap: how many counterexamples of a root are collected before the rest of the root is skipped.
+// Schedule-dependent failures are collected in greater number: they differ in their interleaving and
+// only some interleavings can be staged natively.
+func (x *Explorer) failCap(rr *RootResult) int {
+	for _, f := range rr.Failures {
+		if hasSched(f.Decs) {
+			return 24
+		}
+	}
+	return 3
 }
 
 func appendUniq(l []string, s string) []string {
